@@ -35,6 +35,11 @@ func main() {
 		fmt.Println(strings.Join(ids, " "))
 		return
 	}
+	if *prop == "all" || strings.Contains(*prop, ",") {
+		// development mode (matrices over seeded changes and refactorings): one
+		// load of the program, every listed rule set, one summary block each
+		os.Exit(runMany(*repo, *verif, *prop, *tier))
+	}
 	f, ok := props[*prop]
 	if !ok {
 		fmt.Fprintf(os.Stderr, "unknown property %q\n", *prop)
@@ -98,4 +103,50 @@ func anchorFunc(p *Prog, r *Report, pkg, recv, name string) *ssaFn {
 	}
 	r.FuncsSeen[funcKey(fn)] = true
 	return fn
+}
+
+// runMany: load once (linux/amd64), run the listed rule sets one after the
+// other on the same program. Prints "== <id> rc=<n>" before each report.
+// Returns 1 if any rule set reports a violation or check failure.
+func runMany(repo, verif, list, tier string) int {
+	var ids []string
+	if list == "all" {
+		for id := range props {
+			ids = append(ids, id)
+		}
+	} else {
+		ids = strings.Split(list, ",")
+	}
+	sort.Strings(ids)
+	p, err := Load(repo, "linux", "amd64")
+	worst := 0
+	for _, id := range ids {
+		f, ok := props[id]
+		if !ok {
+			fmt.Fprintf(os.Stderr, "unknown property %q\n", id)
+			return 2
+		}
+		start := time.Now()
+		r := NewReport(id, tier)
+		r.curConfig = "linux/amd64"
+		r.Configs = append(r.Configs, "linux/amd64")
+		if err != nil {
+			r.Fatalf("load: %v", err)
+		} else {
+			func() {
+				defer func() {
+					if e := recover(); e != nil {
+						r.Fatalf("checker panic: %v\n%s", e, debug.Stack())
+					}
+				}()
+				p.ModGraph()
+				f(p, r)
+			}()
+		}
+		fmt.Printf("== %s\n", id)
+		if rc := r.Finish(verif, start); rc > worst {
+			worst = rc
+		}
+	}
+	return worst
 }
